@@ -89,8 +89,9 @@ def run_family(rep, model, name, scenarios, oracle, project=None, rule="", known
         cit = simnet.canon_trace(it)
         complaints = oracle(sc, cit, extra)
         if complaints:
-            n_viol += 1
             kf = known(sc, complaints[0]) if known else None
+            if not kf:
+                n_viol += 1   # a known finding must not mask a model/implementation disagreement
             rep.violation(complaints[0], scenario=jsonable_sc(p), expected=sc.get("_expect"),
                           actual=dict(trace=cit[:400], extra={k: v for k, v in extra.items() if k != "request"}),
                           family=name, kf=kf)
